@@ -182,6 +182,20 @@ def gen_key_cases(c, scale):
             mid = bytes(rng.choice(b" \n") for _ in range(rng.randrange(0, 2))) if rng.random() < 0.1 else b""
             L.append(f"keyfile {hexs(s[:n // 2] + mid + s[n // 2:] + tail)}")
     L += ["keyfile -", "keyfile 0a", "keyfile 200a0d09", "keyfile 30300a", "keyfile 0a3030", "keyfile 303020"]
+    # white space of each kind (and the neighbouring bytes 0x08, 0x0b, 0x0c, 0x1f, 0x21) before, inside and after valid hex
+    for wsb in (0x20, 0x0a, 0x0d, 0x09, 0x08, 0x0b, 0x0c, 0x1f, 0x21, 0x00, 0xa0):
+        for hexpart in (b"", b"00", b"0a1B", b"abc", b"0123456789abcdefABCDEF00"):
+            for k in (1, 2, 3):
+                ws = bytes([wsb]) * k
+                L.append(f"keyfile {hexs(hexpart + ws)}")
+                L.append(f"keyfile {hexs(ws + hexpart)}")
+                if len(hexpart) >= 2:
+                    L.append(f"keyfile {hexs(hexpart[:2] + ws + hexpart[2:])}")
+                    L.append(f"keyfile {hexs(ws + hexpart + ws)}")
+    for _ in range(100 * scale):
+        ws = lambda: bytes(rng.choice(b" \n\r\t") for _ in range(rng.randrange(0, 4)))
+        h = bytes(rng.choice(b"0123456789abcdefABCDEF") for _ in range(rng.choice((0, 2, 4, 5, 16, 32, 64))))
+        L.append(f"keyfile {hexs(rng.choice((b'', ws())) + h + ws())}")
     return L
 
 
@@ -438,7 +452,7 @@ def main():
     model_of = {l: (out_m[k] if k < len(out_m) else None) for k, l in enumerate(main_cases)}
     ref_of = {l: (out_r[k] if k < len(out_r) else None) for k, l in enumerate(ref_cases)}
 
-    bad = list(cookie_bad)          # (case, reason)
+    bad = []          # (case, reason)
     jlines, jcases = [], []
     for l in main_cases + ext:
         o = impl_of.get(l)
@@ -462,6 +476,8 @@ def main():
                         jlines.append(jl); jcases.append(l)
         elif w[0] == "key":
             jlines.append(f"J key {w[1]} {o}"); jcases.append(l)
+        elif w[0] == "keyfile":
+            jlines.append(f"J keyfile {w[1]} {o}"); jcases.append(l)
         elif w[0] == "cbcuse":
             # property side: a cbc object works iff it was given a key of bits/8 bytes and a 16-byte IV
             good = w[2] != "none" and w[3] != "none" and len(w[2]) == int(w[1]) // 4 and len(w[3]) == 32
@@ -482,6 +498,7 @@ def main():
                         # decrypting from a different IV: only the first block may differ (what aes_encryptor relies on)
                         if kind == "Dtail" and (len(got) != len(hexs(data)) or got[32:] != hexs(data)[32:]):
                             bad.append((l, f"decrypt with a different IV damaged more than the first block: expected ..{hexs(data)[32:]} got {got}"))
+    bad += cookie_bad
     rc, jout, jerr = c.run_lines(model, jlines)
     if rc != 0 or len(jout) != len(jlines):
         c.broke("judge run", jerr)
